@@ -26,7 +26,7 @@ func properties() []Property {
 				{Name: "H_C01_payloads", Profile: "bit", Quick: b("rcvKinds", 2, "denomKinds", 1, "memoKinds", 6, "amountKinds", 1, "intKinds", 6, "fees", 1, "priors", 1, "pauses", 0, "ptMax", 0, "feeRcpKinds", 3, "faults", 0, "earlier", 0, "hypVariants", 1, "amountSpellings", 0), Thorough: b("rcvKinds", 2, "denomKinds", 1, "memoKinds", 6, "amountKinds", 1, "intKinds", 6, "fees", 1, "priors", 1, "pauses", 1, "ptMax", 1, "feeRcpKinds", 3, "faults", 0, "earlier", 0, "hypVariants", 1, "amountSpellings", 0), Covers: []string{"error-ack", "success-ack", "success-ack-to-orbiter"}},
 				{Name: "H_C01_faults", Profile: "bit", Quick: b("rcvKinds", 2, "denomKinds", 1, "memoKinds", 1, "amountKinds", 1, "intKinds", 2, "fees", 1, "priors", 1, "pauses", 0, "ptMax", 0, "feeRcpKinds", 2, "faults", 1, "earlier", 0, "hypVariants", 0, "amountSpellings", 0), Covers: []string{"error-ack", "success-ack", "success-ack-to-orbiter"}},
 				{Name: "H_C01_encodings", Profile: "bit", Covers: []string{"refused", "success", "orbiter-transfer-executed"}},
-				{Name: "H_C01_sequence", Profile: "bit", Quick: b("rcvKinds", 2, "denomKinds", 1, "memoKinds", 2, "amountKinds", 1, "intKinds", 2, "fees", 1, "priors", 1, "pauses", 0, "ptMax", 0, "feeRcpKinds", 1, "faults", 0, "earlier", 1, "hypVariants", 0, "amountSpellings", 0), Covers: []string{"error-ack", "success-ack-to-orbiter", "after-an-earlier-transfer"}},
+				{Name: "H_C01_sequence", Profile: "bit", Quick: b("rcvKinds", 2, "denomKinds", 5, "memoKinds", 2, "amountKinds", 1, "intKinds", 2, "fees", 1, "priors", 1, "pauses", 0, "ptMax", 0, "feeRcpKinds", 1, "faults", 0, "earlier", 1, "hypVariants", 0, "amountSpellings", 0), Covers: []string{"error-ack", "success-ack-to-orbiter", "after-an-earlier-transfer"}},
 			}},
 		{ID: "C02", Assumptions: []string{aSummaries, aModels, aE1, aE5, "ledger = ten tracked accounts (orbiter, dust collector, users, fee recipients, escrow, CCTP / warp / transfer module accounts) x four denoms; 'interleavings with other transfers' are sequential histories, covered by starting from an arbitrary ledger"},
 			Harnesses: []HarnessSpec{
@@ -37,6 +37,7 @@ func properties() []Property {
 		{ID: "C03", Assumptions: []string{aSummaries, aModels, aE1, "every fallible environment call (each bank send, the sweep, the ICS-20 application, the token query, each bridge request, each event emission) draws an independent failure bit, so all subsets of failures are covered; naturally occurring failures are the same bits of the respective model", "statistics failures are the documented exception (collections writes do not fail in the model)"},
 			Harnesses: []HarnessSpec{
 				{Name: "H_C03_faults", Profile: "bit", Quick: b("rcvKinds", 1, "denomKinds", 1, "memoKinds", 1, "amountKinds", 1, "intKinds", 2, "fees", 1, "priors", 1, "pauses", 0, "ptMax", 0, "feeRcpKinds", 2, "faults", 0, "earlier", 0, "hypVariants", 0, "amountSpellings", 0), Thorough: b("rcvKinds", 2, "denomKinds", 1, "memoKinds", 1, "amountKinds", 1, "intKinds", 2, "fees", 2, "priors", 1, "pauses", 0, "ptMax", 0, "feeRcpKinds", 2, "faults", 0, "earlier", 0, "hypVariants", 0, "amountSpellings", 0), Covers: []string{"some-step-failed", "error-ack", "success-ack", "success-ack-to-orbiter"}},
+				{Name: "H_C03_fees2", Profile: "bit", Quick: b("rcvKinds", 1, "denomKinds", 1, "memoKinds", 1, "amountKinds", 1, "intKinds", 1, "fees", 2, "priors", 0, "pauses", 0, "ptMax", 0, "feeRcpKinds", 1, "faults", 0, "earlier", 0, "hypVariants", 0, "amountSpellings", 0), Covers: []string{"some-step-failed", "error-ack", "success-ack-to-orbiter"}},
 				{Name: "H_C03_panics", Profile: "bit", Quick: b("rcvKinds", 1, "denomKinds", 1, "memoKinds", 1, "amountKinds", 1, "intKinds", 2, "fees", 1, "priors", 1, "pauses", 0, "ptMax", 0, "feeRcpKinds", 1, "faults", 0, "earlier", 0, "hypVariants", 0, "amountSpellings", 0), Covers: []string{"receive-aborted", "success-ack"}},
 			}},
 		{ID: "C05", Assumptions: []string{aSummaries, aModels, "the transfer attributes are those after arbitrary pre-actions: source amount A, destination amount D with 0 < D <= A (both symbolic), orbiter balance exactly D", "byte fields are arbitrary byte slices of 0..bytes bytes (bytes = 33 = one past the only length Hyperlane accepts); hook metadata from {empty, 0x, valid hex, bad hex, no prefix, odd length}", "of depinject.go, ProvideModule (authority resolution, keeper construction) is executed by H_C10_configured; InjectComponents (wiring of the real CCTP / warp / bank keepers) is outside the claim (the harness mirrors it with the exported constructors and environment models)"},
@@ -59,6 +60,7 @@ func properties() []Property {
 				{Name: "H_C07_channels", Profile: "bit", Covers: []string{"not-for-orbiter"}},
 				{Name: "H_C07_callbacks", Profile: "bit", Covers: []string{"callback-called"}},
 				{Name: "H_C07_sequence", Profile: "bit", Covers: []string{"not-for-orbiter", "after-an-orbiter-transfer"}},
+				{Name: "H_C07_abort", Profile: "bit", Covers: []string{"not-for-orbiter", "application-aborted"}},
 				{Name: "H_C07_payloads", Profile: "bit", Quick: b("rcvKinds", 4, "denomKinds", 1, "memoKinds", 6, "amountKinds", 1, "intKinds", 2, "fees", 1, "priors", 1, "pauses", 1, "ptMax", 1, "garbage", 0, "feeRcpKinds", 1, "faults", 0, "earlier", 0, "hypVariants", 0, "amountSpellings", 0), Covers: []string{"not-for-orbiter"}},
 			}},
 		{ID: "C11", Assumptions: []string{aSummaries, aModels, aE1, "paired executions: the same drawn packet on two freshly wired modules whose states differ only in the coins already on the orbiter account (arbitrary amounts in the transferred denom and one other denom vs. none)", "bank send restrictions of other modules on the sweep are outside the claim"},
@@ -68,7 +70,7 @@ func properties() []Property {
 			}},
 		{ID: "C04", Assumptions: []string{aSummaries, aModels, "math.NewIntFromString on a concrete string is computed with math/big (SetString base 0, 256-bit limit) exactly as cosmossdk.io/math does; fixed fee amounts are the decimal rendering of an arbitrary symbolic Int or one of a few non-numbers", "fee recipients are concrete strings (two valid accounts, possibly repeated, and malformed ones): bech32 decoding itself is the SDK's"},
 			Harnesses: []HarnessSpec{
-				{Name: "H_C04_fee", Profile: "bit", Quick: b("entries", 2, "rcpKinds", 3, "feeKinds", 4, "minEntries", 0, "laterFixed", 0), Thorough: b("entries", 2, "rcpKinds", 5, "feeKinds", 4, "minEntries", 0, "laterFixed", 0), Covers: []string{"refused", "accepted"}, TimeoutThorough: 2400},
+				{Name: "H_C04_fee", Profile: "bit", Quick: b("entries", 2, "rcpKinds", 3, "feeKinds", 5, "minEntries", 0, "laterFixed", 0), Thorough: b("entries", 2, "rcpKinds", 5, "feeKinds", 5, "minEntries", 0, "laterFixed", 0), Covers: []string{"refused", "accepted"}, TimeoutThorough: 2400},
 				{Name: "H_C04_fee3", Profile: "bit", Quick: b("entries", 3, "minEntries", 3, "rcpKinds", 2, "feeKinds", 2, "laterFixed", 1), Thorough: b("entries", 3, "minEntries", 0, "rcpKinds", 2, "feeKinds", 3, "laterFixed", 0), Covers: []string{"refused", "accepted"}, TimeoutThorough: 2400},
 				{Name: "H_C04_count", Profile: "bit", Covers: []string{"refused", "accepted"}},
 				{Name: "H_C04_compute_amount", Profile: "bit", Covers: []string{"overflow", "non-positive", "positive"}},
@@ -79,6 +81,7 @@ func properties() []Property {
 				{Name: "H_C08_enforce", Profile: "bit", Quick: b("strlen", 2, "prePairs", 1), Thorough: b("strlen", 3, "prePairs", 2), Covers: []string{"pre-state-built", "probe-paused", "probe-not-paused"}},
 				{Name: "H_C08_history", Profile: "bit", Quick: b("strlen", 1, "steps", 2, "batch", 1), Thorough: b("strlen", 1, "steps", 3, "batch", 1), Covers: []string{"message-accepted", "message-refused", "probe-paused", "probe-not-paused"}, TimeoutQuick: 240},
 				{Name: "H_C08_batch_limit", Profile: "bit"},
+				{Name: "H_C08_discarded", Profile: "bit", Covers: []string{"pre-state-built", "message-succeeded-in-a-discarded-transaction", "probe-paused", "probe-not-paused"}},
 			}},
 		{ID: "C09", Assumptions: []string{aSummaries, aModels, aE1, "pre-state: any subset of {FEE, SWAP} paused; a recording stub controller is registered under ACTION_SWAP so that both identifiers are routable"},
 			Harnesses: []HarnessSpec{
@@ -135,6 +138,15 @@ func properties() []Property {
 		{ID: "C18", Assumptions: []string{aSummaries, aModels, aE1, "the passthrough payload is an all-zero byte slice whose LENGTH is symbolic in [0, maxlen] (the hook reads only len)"},
 			Harnesses: []HarnessSpec{
 				{Name: "H_C18_limit", Profile: "bit", Quick: b("updates", 2, "maxlen", 70000), Thorough: b("updates", 4, "maxlen", 5000000), Covers: []string{"over-limit", "within-limit", "params-unreadable"}},
+			}},
+		{ID: "C19", Assumptions: []string{aSummaries, aModels, aE5, "run-to-run variation is modelled as symbolic input of the second of two runs of the same history: the iteration order of every map range executed (all permutations up to 4 entries, rotations and reversals beyond), every reading of time.Now / time.Since and of math/rand, math/rand/v2, crypto/rand (fresh values), and the address of every object that package fmt would print as an address (pointers below the top level of an operand, pointers to non-composite values, %p, function values, unexported fields that hide a String method) — named by the allocation, so two runs never agree on it; package-level variables are shared by the two runs as inside one process", "formatted texts (fmt.Sprintf / Errorf, errors.New, cosmossdk.io/errors Wrap / Wrapf, registered error descriptions) are text terms: skeleton (format, operand shapes, address places) + printed leaves; two texts are the same iff the skeletons are identical and the leaves equal. String / Error / Format METHODS that fmt calls are assumed to be deterministic functions of the operand's content", "goroutines, select, reflection and unsafe conversions of pointers to integers are not encoded: a path that reaches one ends unsupported and is decided by the native two-run comparison (24 repeats) only", "NOT decided: variation that exists only between processes or machines and not between two runs in one process (hash seeds of third-party libraries, GOARCH-dependent integer sizes, environment variables, locale), gas consumption, and the byte encoding of the exported genesis document (the exported VALUE is compared)"},
+			Harnesses: []HarnessSpec{
+				{Name: "H_C19_replay", NativeDecides: true, Profile: "bit", Quick: b("rcvKinds", 2, "denomKinds", 1, "memoKinds", 6, "amountKinds", 2, "intKinds", 6, "fees", 1, "priors", 1, "pauses", 0, "ptMax", 0, "feeRcpKinds", 2, "faults", 0, "earlier", 0, "hypVariants", 0, "amountSpellings", 0), Thorough: b("rcvKinds", 2, "denomKinds", 2, "memoKinds", 6, "amountKinds", 3, "intKinds", 6, "fees", 1, "priors", 1, "pauses", 0, "ptMax", 0, "feeRcpKinds", 3, "faults", 0, "earlier", 0, "hypVariants", 1, "amountSpellings", 0), Covers: []string{"success-ack", "error-ack"}},
+				{Name: "H_C19_refusals", NativeDecides: true, Profile: "bit", Quick: b("rcvKinds", 1, "denomKinds", 1, "memoKinds", 1, "amountKinds", 1, "intKinds", 2, "fees", 1, "priors", 0, "pauses", 1, "ptMax", 1, "feeRcpKinds", 1, "faults", 0, "earlier", 0, "hypVariants", 0, "amountSpellings", 0), Thorough: b("rcvKinds", 1, "denomKinds", 2, "memoKinds", 1, "amountKinds", 2, "intKinds", 2, "fees", 1, "priors", 1, "pauses", 1, "ptMax", 1, "feeRcpKinds", 1, "faults", 0, "earlier", 0, "hypVariants", 0, "amountSpellings", 0), Covers: []string{"success-ack", "error-ack"}},
+				{Name: "H_C19_fees", NativeDecides: true, Profile: "bit", Covers: []string{"success-ack", "error-ack"}},
+				{Name: "H_C19_shapes", NativeDecides: true, Profile: "bit", Quick: b("actionShapes", 1, "fwdShapes", 0, "actions", 2, "feeEntries", 0, "bytes", 2, "symBytes", 0, "metaKinds", 3), Thorough: b("actionShapes", 1, "fwdShapes", 0, "actions", 2, "feeEntries", 1, "bytes", 2, "symBytes", 0, "metaKinds", 3), Covers: []string{"success-ack", "error-ack"}},
+				{Name: "H_C19_fwd_shapes", NativeDecides: true, Profile: "bit", Quick: b("actionShapes", 0, "fwdShapes", 1, "actions", 0, "feeEntries", 0, "bytes", 2, "symBytes", 0, "metaKinds", 3), Thorough: b("actionShapes", 0, "fwdShapes", 1, "actions", 0, "feeEntries", 0, "bytes", 33, "symBytes", 0, "metaKinds", 6), Covers: []string{"success-ack", "error-ack"}},
+				{Name: "H_C19_admin", NativeDecides: true, Profile: "bit", Quick: b("steps", 2), Thorough: b("steps", 2), Covers: []string{"message-accepted", "message-refused", "discarded-transaction-served"}},
 			}},
 		{ID: "C20", Assumptions: []string{aSummaries, "strconv.Atoi/ParseInt/ParseUint, strings.Index are executed from their SSA bodies, not summarised", "channeltypes.IsValidChannelID is summarised as the byte predicate ^channel-[0-9]{1,20}$ with value <= 2^64-1 (ibc-go v8.6.1 ParseChannelSequence)"},
 			Harnesses: []HarnessSpec{
